@@ -425,6 +425,9 @@ class Interp:
                     raise Panic(f"unreachable code reached in {fn.crate}::{fn.name}")
                 else:
                     raise Unmodelled("terminator " + t)
+        except Unmodelled as u:
+            if " [in " not in str(u): raise Unmodelled(f"{u} [in {fn.crate}::{fn.name} {bb}]")
+            raise
         finally:
             self.depth -= 1
 
@@ -481,16 +484,20 @@ class Interp:
         r = self.std.call(self, callee, args, fr, dty)
         if r is NotImplemented:
             # dynamic dispatch on the runtime type of the receiver for <T as Trait>::method
-            m = re.fullmatch(r"<(.+) as (.+?)>::(\w+)(::<.*>)?", callee)
-            if m and args:
-                f = self._dispatch_by_value(m.group(3), m.group(2), args, crate)
+            q = mir.split_qualified(callee)
+            if q and args:
+                f = self._dispatch_by_value(q[2], q[1], args, crate)
                 if f is not None: return self.run_fn(f, args)
             raise Unmodelled(f"callee {callee} (in {fr.fn.crate}::{fr.fn.name})")
         return r
 
     def _subst(self, callee):
         for k, v in self.tybind.items():
-            callee = re.sub(r"(?<![\w:])" + re.escape(k) + r"(?![\w])", v, callee)
+            if k.startswith("<"):
+                callee = callee.replace(k, v)
+        for k, v in self.tybind.items():
+            if not k.startswith("<"):
+                callee = re.sub(r"(?<![\w:])" + re.escape(k) + r"(?![\w])", v, callee)
         return callee
 
     def _dispatch_by_value(self, method, trait, args, crate):
